@@ -1590,7 +1590,10 @@ class LinearOperator(object):
                 "batches of a 2D LinearOperator.".format(tuple(sizes))
             )
         elif all(isinstance(size, int) for size in sizes):
-            shape = torch.Size(sizes)
+            offset = len(sizes) - self.dim()
+            shape = torch.Size(
+                self.shape[i - offset] if size == -1 and i >= offset else size for i, size in enumerate(sizes)
+            )
         else:
             raise RuntimeError("Invalid arguments {} to expand.".format(sizes))
 
